@@ -676,6 +676,12 @@ func (d *cnDriver) step() error {
 		}
 		r.bgTxs = append(append([][]byte{}, mempool...), d.sent[:min(len(d.sent), 5)]...)
 		path := pathOf[i]
+		if r.cfg.Checkpoints && strings.HasPrefix(path, "restart") {
+			// (stopping a multiplexer whose checkpointer is at work races with the checkpoint in progress: the harness does not
+			// restart state-sync sources; the other replicas of these scenarios, and all replicas elsewhere, do restart)
+			path = strings.TrimPrefix(path, "restart_")
+			pathOf[i] = path
+		}
 		if strings.HasPrefix(path, "restart") {
 			if err := r.restart(); err != nil {
 				return fmt.Errorf("restart: %w", err)
@@ -986,6 +992,11 @@ func consRun(args []string) int {
 	}
 	defer func() {
 		for _, r := range d.reps {
+			if r.cfg.Checkpoints {
+				// a checkpointer goroutine in the middle of a checkpoint does not survive its database being closed (badger
+				// panics in that goroutine); all output is written by now, the caller removes the scratch directory
+				continue
+			}
 			r.stop()
 		}
 	}()
